@@ -97,6 +97,18 @@ v('C07', 'fire', KA, 'cho_solve((L, True), HP', 'cho_solve((L, False), HP')
 v('C07', 'fire', KA, 'S = HP @ H.T + R', 'S = HP @ H.T')
 v('C07 C19', 'fire', KA, 'K = cho_solve((L, True), HP, overwrite_b=True).T', 'K = cho_solve((L, True), P, overwrite_b=True).T')
 v('C07', 'silent', KA, 'U = np.eye(len(x)) - K.dot(H)', 'U = np.identity(len(x)) - K @ H')
+_DS_OLD = """        rn, _, rp = earth.principal_radii(0.5 * (first.lat + second.lat),
+                                          0.5 * (first.alt + second.alt))"""
+v('C18', 'fire', 'transform.py', _DS_OLD, '        rn, _, rp = earth.principal_radii(first.lat, first.alt)', 'seeded C18 round 3: metre scale evaluated at the first operand')
+v('C18', 'silent', 'transform.py', _DS_OLD, '        lat_mid = (first.lat + second.lat) / 2\n        alt_mid = (second.alt + first.alt) / 2\n        rn, _, rp = earth.principal_radii(lat_mid, alt_mid)', 'mid-point through locals')
+v('C18', 'fire', 'transform.py', _DS_OLD, '        rn, _, rp = earth.principal_radii(0.5 * (first.lat + second.lat), second.alt)', 'metre scale at a mixed, asymmetric point')
+v('C15 C01', 'fire', 'strapdown.py', 'coning = np.cross(a_gyro, b_gyro) * dt ** 2 / 12', 'coning = np.cross(a_gyro, b_gyro) * dt ** 2 / 6', 'seeded C15 round 3: coning coefficient of the rate branch doubled')
+v('C04', 'fire', 'error_model.py', """        F[np.ix_(samples, self.PHI, self.PHI)] = (-util.skew_matrix(rho_n + Omega_n) +
+                                                  util.mm_prod(R, V_skew))""", """        F[np.ix_(samples, self.PHI, self.PHI)] = -util.skew_matrix(rho_n + Omega_n)
+        + util.mm_prod(R, V_skew)""", 'seeded C04 round 3: second line of a wrapped expression became a statement without effect')
+v('C12 C14', 'fire', 'filters.py', """    result[THETA_COLS] = gyro_model.correct_increments(increments['dt'],
+                                                       increments[THETA_COLS])""", """    result[THETA_COLS] = accel_model.correct_increments(increments['dt'],
+                                                       increments[THETA_COLS])""", 'accelerometer model corrects the rotation increments')
 v('C19', 'fire', 'util.py', """    if bt:
         if b.ndim == 3:
             b = np.transpose(b, (0, 2, 1))""", """    if bt:
